@@ -94,6 +94,11 @@ def split_findings(prop, findings):
 
 
 RULE_GLOSSARY = {
+    'SEED': 'no mutator stores into a lazyproperty cache a value that the ALLOWED_SEEDS table does not vouch for',
+    'NAN-TWIN': 'generic pack: a function does not mix the NaN-aware and the NaN-blind form of one numpy reduction',
+    'APPEND-TWIN': 'generic pack: sibling branches append the same variable to one result list',
+    'PARAM-UNUSED': 'generic pack: a parameter the reference definition reads is still read',
+    'QUADFORM': 'generic pack: a one-axis coefficient of a quadratic form multiplies displacements of its own axis only',
     'MUTABLE-DEFAULT': 'generic pack: a parameter default bound to a mutable display is never modified, stored or passed on',
     'LOOP-BREAK': 'generic pack: an exception handler inside a per-element loop skips the element (continue), it never leaves the loop',
     'LOOP-COUNTER': 'generic pack: a counter that limits work per element is reset inside the per-element loop',
